@@ -584,10 +584,10 @@ Proof.
   unfold pop_blanks. destruct (pO p) as [o'|] eqn:EO.
   - inversion H; subst. apply incl_appl. apply incl_refl.
   - destruct (mem str_eqb (pOBinding p) bs).
-    + destruct (lookup r (pOBinding p)) as [[n|x|l|t|]|] eqn:L; inversion H; subst; cbn [obj_blanks app];
+    + destruct (lookup r (pOBinding p)) as [[n|x|l|t|z|]|] eqn:L; inversion H; subst; cbn [obj_blanks app];
         try (intros k []). apply (lookup_blanks _ _ _ L).
     + destruct (pOTemporal p && nonempty (pOAnchorBinding p)); [|discriminate].
-      destruct (lookup r (pOAnchorBinding p)) as [[n|x|l|t|]|]; try discriminate.
+      destruct (lookup r (pOAnchorBinding p)) as [[n|x|l|t|z|]|]; try discriminate.
       destruct (is_empty (pOID p)); inversion H; subst. intros k [].
 Qed.
 
@@ -613,7 +613,7 @@ Proof.
   { intros s X. destruct (cS c) as [n|] eqn:ES.
     - inversion X; subst. apply incl_appl. unfold cc_blanks. rewrite ES. apply incl_appl. apply incl_refl.
     - destruct (mem str_eqb (cSBinding c) bs); [|discriminate].
-      destruct (lookup r (cSBinding c)) as [[n|x|l|t'|]|] eqn:L; try discriminate. inversion X; subst.
+      destruct (lookup r (cSBinding c)) as [[n|x|l|t'|z|]|] eqn:L; try discriminate. inversion X; subst.
       apply incl_appr. apply (lookup_blanks _ _ _ L). }
   match type of H with (match ?X with _ => _ end) = _ => destruct X as [s|] eqn:ES; [|discriminate] end.
   destruct (process_pop bs r (cFirst c)) as [[p o]|] eqn:EP; [|discriminate].
